@@ -100,13 +100,17 @@ fn run(case: &Case, dir: &str) -> Verdict {
         v.harness_error = Some("image shorter than two pages".into());
         return v;
     }
-    let newest = match fsck::choose_header(&img, ps) {
-        Some(h) => h,
-        None => {
-            v.harness_error = Some("no valid header in the undamaged file".into());
+    // Which slot is the newest is known from the raw transaction ids (slot 1 on a tie, as
+    // on a fresh file); which bytes matter is known from the layout. Neither depends on
+    // recomputing the checksum, so a change to the checksum itself cannot blind this check.
+    let (h0, h1) = match (fsck::raw_header(&img, 0, ps), fsck::raw_header(&img, 1, ps)) {
+        (Some(a), Some(b)) => (a, b),
+        _ => {
+            v.harness_error = Some("file shorter than two header pages".into());
             return v;
         }
     };
+    let newest = if h0.tx_id > h1.tx_id { h0 } else { h1 };
     let empty = MBucket::default();
     let state_new: &MBucket = out.commits.last().map(|c| &*c.post).unwrap_or(&empty);
     let state_old: &MBucket = out.commits.last().map(|c| &*c.pre).unwrap_or(&empty);
@@ -165,8 +169,12 @@ fn run(case: &Case, dir: &str) -> Verdict {
         let end = (d.off + d.bytes.len()).min(ps as usize);
         let saved: Vec<u8> = img[base + d.off..base + end].to_vec();
         img[base + d.off..base + end].copy_from_slice(&d.bytes[..end - d.off]);
-        // what does the format itself say about the damaged header?
-        let still_valid = fsck::valid_header(&img, d.slot, ps, legacy);
+        // Does the damage touch bytes that make a header what it is? The page-type byte, the
+        // checksummed fields (record bytes 0..12 and 16..64) and the checksum itself.
+        let rec_end = fsck::REC_OFF + if legacy { fsck::REC_LEN_OLD } else { fsck::REC_LEN_NEW };
+        let matters = |o: usize| o == 8 || (fsck::REC_OFF..fsck::REC_OFF + 12).contains(&o) || (fsck::REC_OFF + 16..rec_end).contains(&o);
+        let changed_meaningful = (d.off..end).any(|o| matters(o) && img[base + o] != saved[o - d.off]);
+        let still_valid = if d.what == "other-record" || !changed_meaningful { Some(()) } else { None };
         let mut accept: Vec<&MBucket> = Vec::new();
         let class;
         match &still_valid {
